@@ -121,6 +121,18 @@ def run_extra(prop, ex, tier, seed):
                             env=env, cwd=ROOT)
         lines = [l for l in pr.stdout.strip().splitlines() if l.startswith('{')]
         if not lines:
+            tb = pr.stderr.strip().splitlines()
+            frames = [l.strip() for l in tb if l.strip().startswith('File "')]
+            in_repo = bool(frames) and (os.path.join(REPO, 'gnpy') + os.sep) in frames[-1]
+            if in_repo:
+                # the stand-in feeds inputs of its family to the real pipeline, which raised inside the code under test:
+                # on the unchanged tree the same run completes, so this is reported as a violation with the exception as
+                # witness (a crash of the stand-in's own code stays a checker error)
+                exc = tb[-1][:300] if tb else 'exception'
+                return {'name': ex['name'], 'kind': ex['kind'], 'status': 'violated', 'script': ex['script'], 'cases': 0,
+                        'bound': 'stopped at the first exception', 'function': frames[-1][:200],
+                        'witnesses': [{'key': 'exception-in-code-under-test:' + exc.split(':')[0],
+                                       'problems': [exc] + frames[-3:]}], 'wall_s': time.time() - t0}
             return {'name': ex['name'], 'kind': ex['kind'], 'status': 'crash', 'detail': (pr.stdout + pr.stderr)[-2000:],
                     'wall_s': time.time() - t0}
         r = json.loads(lines[-1])
